@@ -40,6 +40,8 @@ pub enum Ev {
     /// a state packet from fake peer `fake` that acknowledges the SYN socket `from` sent to it but carries
     /// another connection id (id of the SYN + `delta`): a late packet of an older connection, or a forgery
     RawSynAckOtherId { from: u8, fake: u8, delta: u16 },
+    /// a SYN from a fresh peer with an IPv6 address (a dual-stack socket sees both families)
+    RawSynV6 { to: u8, fake: u8 },
     /// drop the oldest still-open stream held by the harness
     CloseOldest,
     /// let 50 ms of virtual time pass (several round trips)
@@ -361,6 +363,10 @@ async fn run_async(script: &SockScript) -> SockLog {
                     let h = w.hdr.as_ref().unwrap();
                     net.inject_now(fake_addr(*fake), sock_addr(*from), raw_header(2, h.conn_id.wrapping_add(*delta), fake_isn(*fake), h.seq, 1 << 20, &[]));
                 }
+            }
+            Ev::RawSynV6 { to, fake } => {
+                let from = SocketAddr::new(IpAddr::V6(std::net::Ipv6Addr::new(0xfd00, 0, 0, 0, 0, 0, 0, 1 + *fake as u16)), 9000 + *fake as u16);
+                net.inject_now(from, sock_addr(*to), raw_header(4, fake_conn_id(*fake), fake_isn(*fake), 0, 0, &[]));
             }
             Ev::CloseOldest => {
                 let mut g = shared.lock();
